@@ -185,6 +185,11 @@ func runPacket(c Case, tr *Tracer) {
 			}
 		}
 		e["stale"] = stale
+		// looking at what is left (Reader.Bytes) is an observation: it takes nothing away (every second read looks)
+		e["rest"], e["looked"] = []int{}, false
+		if (len(held)+caseInt(o, "n"))%2 == 0 {
+			e["rest"], e["looked"] = B(append([]byte{}, rd.Bytes()...)), true
+		}
 		e["rem"] = rd.Remaining()
 		e["err"] = errStr(rd.Error())
 		e["mi"] = caseInt(o, "mi")
